@@ -241,6 +241,10 @@ pub struct Cfg {
     /// transpose(), then target(), then (undirected orderings) pre()/post()
     #[serde(default)]
     pub alt: bool,
+    /// `transpose()` is called twice on the builder (it is a setting, not a
+    /// toggle: the search must still run on the reversed graph)
+    #[serde(default)]
+    pub tt: bool,
 }
 
 impl Cfg {
@@ -258,7 +262,7 @@ impl Cfg {
     pub fn describe(&self) -> String {
         format!(
             "{}{}{}{}{}.{}",
-            if self.alt { "[closure-first builder order] " } else { "" },
+            if self.alt { "[closure-first builder order] " } else if self.tt { "[transpose() called twice] " } else { "" },
             self.kind.name(),
             if self.transpose { ".transpose" } else { "" },
             match self.target {
@@ -691,7 +695,15 @@ macro_rules! with_methods {
         $s
     }};
     (@tr yes, $s:ident, $cfg:expr) => {
-        if $cfg.transpose { $s.transpose() } else { $s }
+        if $cfg.transpose {
+            if $cfg.tt {
+                $s.transpose().transpose()
+            } else {
+                $s.transpose()
+            }
+        } else {
+            $s
+        }
     };
     (@tr no, $s:ident, $cfg:expr) => {
         $s
